@@ -27,7 +27,8 @@ Arguments u8 x%string_scope.
 (** one emitted map of a CLI project, as the harness read it back from disk *)
 Record mapfile := mk_mapfile {
   mf_output : str;                 (* absolute path of the generated file G *)
-  mf_op : option N;                (* None: schema/resolver output; Some i: declaration file of file-store entry i *)
+  mf_op : option opdoc;            (* None: schema/resolver output; Some (i, files): declaration file of file-store entry i,
+                                      whose document has definitions from the store files [files] *)
   mf_text : str;                   (* contents of G *)
   mf_json_ok : bool;               (* the .map parsed as JSON with version 3, string file, array sources/names, string mappings *)
   mf_file : str;                   (* "file" *)
@@ -37,8 +38,6 @@ Record mapfile := mk_mapfile {
   mf_defs : list (str * str * N * N * N * N);
      (* definitions printed in G: (generated identifier, source file path, header start line/col,
         header end line/col (exclusive)); positions in Unicode scalar values as the parser reports them *)
-  mf_tol_unmapped : bool;          (* lenient twin of a case: ignore segments with source index -1 and the
-                                      definitions of files that are not in "sources" *)
   mf_tol_scalar_cols : bool        (* lenient twin: read original columns in Unicode scalar values, not UTF-16 *)
 }.
 
@@ -46,10 +45,8 @@ Inductive case :=
 | CVlq (n : Z) (out : str)                                   (* out = base64_vlq(n) *)
 | CVlqRange (lo : Z) (cnt : N) (digest : N)                  (* digest of base64_vlq(lo), …, base64_vlq(lo+cnt-1) *)
 | CMap (es : list entry) (out : option str)                  (* MappingWriter: add_entry for each, into_buffer; None = panic *)
-| CWriter (tol : bool) (fmap : option (list N)) (ops : list wop) (out : option (str * str * list str))
-     (* SourceWriter::new, set_file_index_mapper, the ops, into_buffers = (buffer, source_map, names);
-        tol = lenient twin of a case that uses a file index mapped to usize::MAX: [holds] accepts source -1 for
-        exactly those segments (everything else is still required) *)
+| CWriter (fmap : option (list N)) (ops : list wop) (out : option (str * str * list str))
+     (* SourceWriter::new, set_file_index_mapper, the ops, into_buffers = (buffer, source_map, names) *)
 | CJson (file : str) (srcs : list str) (passthru : bool) (out : option (str * list str))
      (* print_source_map_json(file, srcs, names, mappings): ("file", "sources") of the JSON written; passthru =
         version is 3, sourceRoot "", names and mappings are the arguments *)
@@ -87,7 +84,7 @@ Definition agree (c : case) : bool :=
   | CVlq n out => option_eqb str_eqb (vlq_encode n) (Some out)
   | CVlqRange lo cnt d => option_eqb N.eqb (range_digest lo cnt) (Some d)
   | CMap es out => option_eqb str_eqb (option_map mbuf (add_entries m0 es)) out
-  | CWriter _ fmap ops out => option_eqb triple_eqb (option_map sw_buffers (sw_run fmap ops)) out
+  | CWriter fmap ops out => option_eqb triple_eqb (option_map sw_buffers (sw_run fmap ops)) out
   | CJson file srcs passthru out =>
       passthru &&
       option_eqb (fun a b => str_eqb (fst a) (fst b) && list_eqb str_eqb (snd a) (snd b))
@@ -140,14 +137,13 @@ Fixpoint expect (fmap : option (list N)) (ops : list wop) : option (list xseg) :
   | _ :: r => expect fmap r
   end.
 
-Fixpoint match_segs (tol : bool) (lines names : list str) (gs : list seg) (xs : list xseg) : bool :=
+Fixpoint match_segs (lines names : list str) (gs : list seg) (xs : list xseg) : bool :=
   match gs, xs with
   | [], [] => true
   | g :: gr, x :: xr =>
       match g_orig g with
       | Some (sr, ol, oc, nm) =>
-          ((sr =? Z.of_N (x_src x))%Z || (tol && (x_src x =? USIZE_MAX) && (sr =? -1)%Z)) &&
-          (ol =? Z.of_N (x_ol x))%Z && (oc =? Z.of_N (x_oc x))%Z &&
+          (sr =? Z.of_N (x_src x))%Z && (ol =? Z.of_N (x_ol x))%Z && (oc =? Z.of_N (x_oc x))%Z &&
           match nm, x_name x with
           | None, None => true
           | Some k, Some n =>
@@ -156,13 +152,21 @@ Fixpoint match_segs (tol : bool) (lines names : list str) (gs : list seg) (xs : 
           end &&
           match x_text x with Some w => text_at lines g w | None => true end
       | None => false
-      end && match_segs tol lines names gr xr
+      end && match_segs lines names gr xr
   | _, _ => false
   end.
 
 Definition op_small (o : wop) : bool :=
   match o with
   | WF _ p _ => small (p_line p) && small (p_col p) && small (p_file p)
+  | _ => true
+  end.
+
+(** the contract of [write_for]: the node's file is one the mapper gives an index of "sources" to (the
+    CLI maps every file a printed definition comes from; a file mapped to usize::MAX must not be used) *)
+Definition op_mapped (fmap : option (list N)) (o : wop) : bool :=
+  match o with
+  | WF _ p _ => p_builtin p || match lookup_file fmap (p_file p) with Some k => negb (k =? USIZE_MAX) | None => true end
   | _ => true
   end.
 
@@ -229,7 +233,6 @@ Definition seg_orig_ok (tab : list (option (str * str * list tokpos))) (m : mapf
   match g_orig g with
   | None => true
   | Some (sr, ol, oc, nm) =>
-      if mf_tol_unmapped m && (sr =? -1)%Z then true else
       match source_entry tab sr with
       | None => false
       | Some (_, t, toks) =>
@@ -265,7 +268,6 @@ Definition pos_ltb (l c : Z) (l1 c1 : N) : bool := ((l <? Z.of_N l1) || ((l =? Z
 Definition def_mapped (tab : list (option (str * str * list tokpos))) (m : mapfile) (lines : list str) (gs : list seg)
            (d : str * str * N * N * N * N) : bool :=
   let '(ident, path, l0, c0, l1, c1) := d in
-  (mf_tol_unmapped m && negb (existsb (fun e => match e with Some (p, _, _) => str_eqb p path | None => false end) tab)) ||
   existsb (fun g =>
     match g_orig g with
     | Some (sr, ol, oc, Some _) =>
@@ -276,10 +278,6 @@ Definition def_mapped (tab : list (option (str * str * list tokpos))) (m : mapfi
     | _ => false
     end) gs.
 
-Definition seg_refs_ok_tol (m : mapfile) (g : seg) : bool :=
-  (mf_tol_unmapped m && match g_orig g with Some (sr, _, _, _) => (sr =? -1)%Z | None => false end) ||
-  seg_refs_ok (N.of_nat (length (mf_sources m))) (N.of_nat (length (mf_names m))) g.
-
 Definition map_holds (files : list (str * str)) (m : mapfile) : bool :=
   mf_json_ok m &&
   match decode_mappings (mf_mappings m) with
@@ -288,7 +286,7 @@ Definition map_holds (files : list (str * str)) (m : mapfile) : bool :=
       let lines := lines_of (mf_text m) in
       let tab := source_table files (mf_output m) (mf_sources m) in
       segs_sorted gs && forallb (seg_in_text lines) gs &&
-      forallb (seg_refs_ok_tol m) gs &&
+      forallb (seg_refs_ok (N.of_nat (length (mf_sources m))) (N.of_nat (length (mf_names m)))) gs &&
       forallb (fun e => match e with Some _ => true | None => false end) tab &&
       forallb (seg_orig_ok tab m gs) gs &&
       forallb (def_mapped tab m lines gs) (mf_defs m)
@@ -312,18 +310,17 @@ Definition holds (c : case) : bool :=
           then option_eqb (list_eqb seg_eqb) (decode_mappings o) (Some (map seg_of_entry_spec es))
           else true
       end
-  | CWriter tol fmap ops out =>
+  | CWriter fmap ops out =>
       match out with
       | None => true
       | Some (buf, mp, names) =>
-          if forallb op_small ops then
+          if forallb op_small ops && forallb (op_mapped fmap) ops then
             match decode_mappings mp, expect fmap ops with
             | Some gs, Some xs =>
                 let lines := lines_of buf in
                 segs_sorted gs && forallb (seg_in_text lines) gs &&
-                forallb (fun g => (tol && match g_orig g with Some (sr, _, _, _) => (sr =? -1)%Z | None => false end) ||
-                                  seg_refs_ok (nsources_of fmap) (N.of_nat (length names)) g) gs &&
-                match_segs tol lines names gs xs
+                forallb (seg_refs_ok (nsources_of fmap) (N.of_nat (length names))) gs &&
+                match_segs lines names gs xs
             | None, _ => false
             | Some _, None => true
             end
